@@ -2882,7 +2882,7 @@ def pip_on_edge_sites(db, chk, cfg, rule="PIP.on-edge"):
 # START.location: where RectClip64's scan believes the path to be before its first segment (C08)
 # ---------------------------------------------------------------------------
 
-def start_location_rule(db, chk, cfg, rule="START.location"):
+def start_location_rule(db, chk, cfg, rule="START.location", qual="RectClip64::ExecuteInternal", anchor="last"):
     """RectClip64::ExecuteInternal walks a closed path segment by segment, the first segment being the closing one (last vertex ->
     first vertex), and only records a crossing when the location changes.  So the location it starts with must be the truth about
     the last vertex: its region when it lies off the rectangle's boundary; when it lies *on* the boundary, `Inside` exactly when
@@ -2890,7 +2890,7 @@ def start_location_rule(db, chk, cfg, rule="START.location"):
     rectangle is still to come), else the side it lies on.  The function's prologue - everything before the main loop - is
     interpreted for every status (5 regions off the boundary, 4 sides on it) of the last three vertices of a path; GetLocation is
     answered from the scenario, its definition being checked by T.location."""
-    f = db.one("RectClip64::ExecuteInternal")
+    f = db.one(qual)
     main = None
     pre = []
     for x in kids(f.body):
@@ -2899,7 +2899,7 @@ def start_location_rule(db, chk, cfg, rule="START.location"):
             break
         pre.append(x)
     if main is None:
-        raise AnalysisBroken("%s: main loop of RectClip64::ExecuteInternal not found" % rule)
+        raise AnalysisBroken("%s: main loop of %s not found" % (rule, qual))
     gnl = [y for y in walk(kids(main)[-1]) if y.get("kind") in ("CallExpr", "CXXMemberCallExpr") and db.callee(y)[0] == "GetNextLocation"][0]
     locvar = canon(db.call_args(gnl)[1])
     pathvar = f.params[0]["name"]
@@ -2927,7 +2927,7 @@ def start_location_rule(db, chk, cfg, rule="START.location"):
         for s1 in statuses:
             for s0 in statuses:
                 scen = {2: s2, 1: s1, 0: s0}
-                it = Interp(db, {}, [])
+                it = Interp(db, {pathvar: [0, 1, 2]}, [])          # the path as a sequence of vertex indices (the copy loop runs over it)
 
                 def hook(name, argv, nd, it=it, scen=scen):
                     if name == "GetLocation":
@@ -2947,6 +2947,12 @@ def start_location_rule(db, chk, cfg, rule="START.location"):
                         return N
                     if name == "empty" and nd.get("kind") == "CXXMemberCallExpr" and canon(db.member_base(nd)) == pathvar:
                         return False
+                    if name == "IsEmpty":
+                        return False
+                    if name in ("Add", "clear") or name.startswith("ctor:"):
+                        return None
+                    if name == "operator=" and nd.get("kind") == "CXXOperatorCallExpr" and "deque" in (qt(kids(nd)[1]) or ""):
+                        return None                    # op_container_ = std::deque<OutPt2>()
                     return NotImplemented
                 it.call_hook = hook
                 it.concrete_loops = True
@@ -2961,13 +2967,13 @@ def start_location_rule(db, chk, cfg, rule="START.location"):
                     if all(not st[0] for st in scen.values()):
                         returned = True
                     else:
-                        raise AnalysisBroken("%s: cannot interpret the prologue of RectClip64::ExecuteInternal: %s" % (rule, e))
+                        raise AnalysisBroken("%s: cannot interpret the prologue of %s: %s" % (rule, qual, e))
                 n += 1
-                off, l = s2
+                off, l = s2 if anchor == "last" else s0
                 if off:
                     want = l
                 else:
-                    earlier = [st for st in (s1, s0) if st[0]]
+                    earlier = [st for st in ((s1, s0) if anchor == "last" else (s1, s2)) if st[0]]
                     want = None if not earlier else (inside if earlier[0][1] == inside else l)
                 got = None if returned else it.env.get(locvar)
                 if got != want:
@@ -2978,9 +2984,11 @@ def start_location_rule(db, chk, cfg, rule="START.location"):
     if bad:
         scen, got, want = first_bad
         d = lambda st: ("off the boundary in %s" if st[0] else "on the boundary (%s)") % name_of.get(st[1], st[1])
-        chk.violation(rule, f.qual, "prologue", "RectClip64::ExecuteInternal starts its scan with the wrong location in %d of %d scenarios, e.g. last vertex %s, the one "
-                      "before %s, the one before that %s: `%s` is %s, the path is %s - the crossing of the closing segment is then not recorded (or a spurious one is)"
-                      % (bad, n, d(scen[2]), d(scen[1]), d(scen[0]), locvar, name_of.get(got, "returned early" if got is None else got),
+        order = (2, 1, 0) if anchor == "last" else (0, 1, 2)
+        chk.violation(rule, f.qual, "prologue", "%s starts its scan with the wrong location in %d of %d scenarios, e.g. %s vertex %s, the "
+                      "next one looked at %s, the one after that %s: `%s` is %s, the path is %s - the crossing of the first segment is then not recorded (or a spurious one is, "
+                      "or a path that leaves the rectangle is copied whole)"
+                      % (qual, bad, n, anchor, d(scen[order[0]]), d(scen[order[1]]), d(scen[order[2]]), locvar, name_of.get(got, "returned early" if got is None else got),
                          name_of.get(want, "wholly on / inside the boundary (early return)" if want is None else want)), f.where, cfg=cfg)
     return n
 
